@@ -558,7 +558,6 @@ fn walk(part: &str, exe_env: &[(String, String)]) -> Walk {
 
 /// re-walk one block announcing every case; returns (index of the case that killed the worker, reason)
 fn locate(block: usize) -> Option<(usize, String)> {
-    use std::io::{BufRead, BufReader};
     use std::process::{Command, Stdio};
     let exe = std::env::current_exe().ok()?;
     let args: Vec<String> = std::env::args().skip(1).collect();
@@ -570,22 +569,29 @@ fn locate(block: usize) -> Option<(usize, String)> {
         .stderr(Stdio::null())
         .spawn()
         .ok()?;
-    let out = c.stdout.take()?;
     let mut last = None;
     let mut reason = String::new();
-    for l in BufReader::new(out).lines().map_while(Result::ok) {
+    let mut done = false;
+    let started = std::time::Instant::now();
+    vcore::sweep::lines_until_silent(&mut c, std::time::Duration::from_secs(30), |l| {
         if let Some(k) = l.strip_prefix("K ") {
             last = k.trim().parse::<usize>().ok();
         } else if let Some(a) = l.strip_prefix("A ") {
             reason = format!("allocation request of {} bytes", a.trim());
         } else if l == "D" {
-            let _ = c.wait();
-            return None;
+            done = true;
+            return false;
         }
-    }
+        true
+    });
+    let silent = c.try_wait().ok().flatten().is_none();
+    let _ = c.kill();
     let st = c.wait().ok()?;
+    if done {
+        return None;
+    }
     if reason.is_empty() {
-        reason = format!("worker died with {st:?}");
+        reason = if silent { format!("no answer for 30 s (killed after {} s)", started.elapsed().as_secs()) } else { format!("worker died with {st:?}") };
     }
     last.map(|k| (k, reason))
 }
